@@ -3,6 +3,7 @@ package yqlib
 import (
 	"bufio"
 	"io"
+	"math"
 	"strconv"
 	"strings"
 
@@ -379,4 +380,37 @@ func VerifC06LiteralMergeKeyText() {
 	verifObserve("out", sb.String())
 	verifAssert(verifEqStr(sb.String(), want), "C06/json-value-differs-from-yaml-value key-spelt-like-a-merge-key")
 	verifCover("C06/literal-merge-key/end")
+}
+
+// VerifC06JSONNumbers: the JSON library hands every number over as a float64 (contract of decoder_json.go). For every
+// finite float64 (a solver variable: an arbitrary bit pattern) the YAML scalar yq makes of it denotes exactly that
+// number: tagged !!int only if its decimal text is that very value, otherwise a !!float whose text reads back to the
+// same float — never another number (no wrap-around beyond the int64 range, no rounding).
+func VerifC06JSONNumbers() {
+	f := math.Float64frombits(uint64(verifInt64("bits")))
+	verifAssume(!math.IsNaN(f) && !math.IsInf(f, 0))
+	var n CandidateNode
+	err := n.setScalarFromJson(f)
+	verifAssert(err == nil, "C06/decode-error number")
+	if err != nil {
+		return
+	}
+	switch n.Tag {
+	case "!!int":
+		_, i, perr := parseInt64(n.Value)
+		verifAssert(perr == nil, "C06/json-number-became-unreadable-integer")
+		if perr == nil {
+			// the integer i is exactly the number f: f lies inside the int64 range, is a whole number, and i is it
+			inRange := verifAnd(f >= -9223372036854775808.0, f < 9223372036854775808.0)
+			verifAssert(verifAnd(inRange, verifAnd(f == math.Trunc(f), i == int64(f))), "C06/json-number-became-another-integer")
+		}
+		verifCover("C06/numbers/int")
+	case "!!float":
+		back, perr := strconv.ParseFloat(n.Value, 64)
+		verifAssert(perr == nil && back == f, "C06/json-number-became-another-float")
+		verifCover("C06/numbers/float")
+	default:
+		verifFail("C06/json-number-tag")
+	}
+	verifCover("C06/numbers/end")
 }
